@@ -14,7 +14,7 @@ import pickle
 
 from traits.api import (
     HasTraits, Instance, Int, Range, Str, CInt, Enum, Any, TraitError,
-    DelegatesTo, PrototypedFrom, push_exception_handler,
+    DelegatesTo, PrototypedFrom, DelegationError, push_exception_handler,
 )
 from traits.observation.api import (
     push_exception_handler as obs_push_exception_handler,
@@ -31,7 +31,8 @@ META = {
              "traits and __prefix__ or inherits them from a base class; recorders {on_trait_change, "
              "observe, both, none} on every deferring attribute.  Ops: assign through a deferring "
              "attribute (valid, coerced or invalid), assign the target on any terminal, swap a "
-             "delegate reference, del a local value, read, and a round trip of the whole structure "
+             "delegate reference (to either candidate, or to None and back), del a local value, "
+             "read, and a round trip of the whole structure "
              "through pickle (protocols 2-5) / copy.deepcopy / clone_traits after which the history "
              "continues on the copies (their cells are adopted by observation, recorders are "
              "re-attached).  After every op the cells (terminal values, decoy attributes, local "
@@ -48,10 +49,14 @@ META = {
                   "must_after_del": 1500, "must_through_chain": 2500,
                   "coerced_assignments": 2500,
                   "roundtrip_pickle": 5000, "roundtrip_deepcopy": 2000, "roundtrip_clone": 2000,
-                  "none_linkbroken_after_pickle": 4000, "none_linkbroken_after_deepcopy": 2000,
-                  "none_linkbroken_after_clone": 2000, "must_after_pickle": 12000,
+                  "none_linkbroken_after_pickle": 3500, "none_linkbroken_after_deepcopy": 2000,
+                  "none_linkbroken_after_clone": 2000, "must_after_pickle": 10000,
                   "must_after_deepcopy": 4000, "must_after_clone": 4000,
-                  "must_inherited_prefix": 3500, "reads_inherited_prefix": 20000},
+                  "must_inherited_prefix": 3000, "reads_inherited_prefix": 16000,
+                  "swap_to_none": 3000, "swap_from_none": 1500, "none_while_no_delegate": 12000,
+                  "none_former_after_none": 800, "none_linkbroken_after_none": 900,
+                  "must_after_none": 1400, "no_delegate_assign_checked": 4000,
+                  "no_delegate_reads": 12000},
         "thorough": {"evaluations": 4500000, "ops": 1650000, "notify_must_checked": 480000,
                      "notify_none_checked": 2200000, "invalid_checked": 100000, "del_checked": 90000,
                      "swap_checked": 220000, "chain_ops": 800000, "must_after_swap": 100000,
@@ -61,13 +66,20 @@ META = {
                      "none_linkbroken_after_pickle": 50000, "none_linkbroken_after_deepcopy": 30000,
                      "none_linkbroken_after_clone": 30000, "must_after_pickle": 160000,
                      "must_after_deepcopy": 55000, "must_after_clone": 55000,
-                     "must_inherited_prefix": 45000, "reads_inherited_prefix": 230000},
+                     "must_inherited_prefix": 45000, "reads_inherited_prefix": 230000,
+                     "swap_to_none": 40000, "swap_from_none": 20000, "none_while_no_delegate": 160000,
+                     "none_former_after_none": 10000, "none_linkbroken_after_none": 12000,
+                     "must_after_none": 18000, "no_delegate_assign_checked": 55000,
+                     "no_delegate_reads": 160000},
     },
     "assumptions": [
         "reading a plain (non-deferred) trait and obj.__dict__ are trusted observation channels",
         "the reference validators for Int/Range/Str/CInt/Enum on the small value pools are right",
         "'*' resolves with the __prefix__ of the class that declares the deferring attribute "
         "(Delegate docstring and ctraits), not of the delegate's class",
+        "while a delegate reference on the way is None, reads and writes of a deferring "
+        "attribute are outside the statement (only: documented error classes, nothing changes, "
+        "nothing is notified); the notification laws for former / current delegates continue",
         "which state a pickle / deepcopy / clone_traits copy preserves is not this property's "
         "subject (C14): the copy's cells are adopted by observation, only its behaviour "
         "afterwards is judged",
@@ -229,12 +241,16 @@ class Defer:
         self.swapped = False     # its reference was re-pointed at least once
         self.deleted = False     # its local value was deleted at least once
         self.copied = None       # how the current object was produced by a round trip
+        self.via_none = False    # its reference was cleared (None) and set again
+        self.kinds = ""          # e.g. "D>P": kinds from this level down
 
 
 def m_end(n):
-    """(linked deferring levels passed through, node holding the cell read)."""
+    """(linked deferring levels passed through, node holding the cell read).
+    The node is None when a linked level has no delegate (reference cleared):
+    reading is then outside the statement."""
     levels = []
-    while n.is_def and not (n.kind == "P" and n.local is not ABSENT):
+    while n is not None and n.is_def and not (n.kind == "P" and n.local is not ABSENT):
         levels.append(n)
         n = n.ref
     return levels, n
@@ -246,7 +262,8 @@ def m_read(n):
 
 
 def m_terminal(n):
-    while n.is_def:
+    """Object whose trait validates an assignment (None: a reference on the way is cleared)."""
+    while n is not None and n.is_def:
         n = n.ref
     return n
 
@@ -265,11 +282,21 @@ def m_assign(n, raw):
 
 
 def kinds_from(n):
+    return n.kinds
+
+
+def delegateless(n):
+    """n is a deferring (middle) node whose own delegate reference is None."""
+    return n is not None and n.is_def and n.ref is None
+
+
+def ref_chain(n):
+    """Deferring nodes from n down along the current references (locals ignored)."""
     out = []
-    while n.is_def:
-        out.append(n.kind)
+    while n is not None and n.is_def:
+        out.append(n)
         n = n.ref
-    return ">".join(out)
+    return out
 
 
 # --------------------------------------------------------------------------
@@ -304,6 +331,7 @@ class NullCtx:
         pass
 
 
+NO_DELEGATE_ERRORS = (TraitError, AttributeError, DelegationError)
 ROUNDTRIPS = ["pickle2", "pickle3", "pickle4", "pickle5", "pickle5",
               "deepcopy", "deepcopy", "clone", "clone"]
 
@@ -360,6 +388,10 @@ class History:
         kinds = "".join(k for k, _, _ in self.levels)
         self.front_write_ok = not (kinds == "DP" and (rng.random() < 0.5 or self.prefixdiff))
         self.del_unlistenable_ok = rng.random() < 0.5
+        # stratum: ops that (re)hook the front attribute's listener onto a middle
+        # object whose own delegate reference is None (swap of the front reference
+        # to it, or a round trip in that state)
+        self.hook_delegateless_ok = self.depth == 2 and rng.random() < 0.4
         self.nsteps = 15 if self.ctx.quick or rng.random() < 0.7 else 25
         names = ["x"]
         named = ["y", "z"]
@@ -390,6 +422,7 @@ class History:
                 "terminals_explicit": self.init_explicit,
                 "strata": {"front_write": self.front_write_ok,
                            "del_unlistenable": self.del_unlistenable_ok,
+                           "hook_delegateless_middle": self.hook_delegateless_ok,
                            "prefixdiff": self.prefixdiff}}
 
     # -- construction -------------------------------------------------------
@@ -419,6 +452,7 @@ class History:
             for i in range(count):
                 label = "c" if lv == 0 else "m%d" % i
                 d = Defer(serial, lv, kind, style, listen, self.names[lv], below, label)
+                d.kinds = kinds_from_levels(self.levels[lv:])
                 serial += 1
                 d.ref = rng.choice(below)
                 kw = {}
@@ -478,7 +512,7 @@ class History:
         for t in self.terms:
             s[t.label] = {"type": t.tt, t.target: t.value}
         for d in self.defs:
-            s[d.label] = {"delegate": d.ref.label, "local": d.local}
+            s[d.label] = {"delegate": d.ref.label if d.ref else None, "local": d.local}
         return s
 
     def structure(self, node):
@@ -513,9 +547,21 @@ class History:
                 self.fail("%s/%s/%s" % (op, what_stored, st),
                           "%s local value is %r, interpreter says %r"
                           % (d.label, dct.get(d.attr, ABSENT), d.local))
-            if d.obj.p is not d.ref.obj:
+            if d.obj.p is not (d.ref.obj if d.ref is not None else None):
                 self.fail("%s/%s/%s" % (op, what_stored, st), "%s.p is not the assigned delegate" % d.label)
         for d in self.defs[::-1]:
+            if m_end(d)[1] is None:
+                # no delegate on the way: what a read gives is outside the statement
+                self.ctx.count("no_delegate_reads")
+                try:
+                    getattr(d.obj, d.attr)
+                except NO_DELEGATE_ERRORS:
+                    pass
+                except Exception as e:  # noqa: BLE001
+                    self.fail("read/%s/no-delegate" % type(e).__name__,
+                              "reading %s.%s while a delegate reference is None raised %r"
+                              % (d.label, d.attr, e))
+                continue
             try:
                 got = getattr(d.obj, d.attr)
             except Exception as e:  # noqa: BLE001
@@ -544,6 +590,12 @@ class History:
                 if verdict == "none":
                     ctx.ev()
                     ctx.count("notify_none_checked")
+                    if m_end(d)[1] is None:
+                        ctx.count("none_while_no_delegate")
+                    if why == "not-current-delegate" and any(l.via_none for l in ref_chain(d)):
+                        ctx.count("none_former_after_none")
+                    if why == "link-broken" and any(l.via_none for l in ref_chain(d)):
+                        ctx.count("none_linkbroken_after_none")
                     if d.copied:
                         ctx.count("none_after_roundtrip")
                         if why == "link-broken":
@@ -564,6 +616,8 @@ class History:
                         ctx.count("must_after_swap")
                     if any(l.deleted for l in levels):
                         ctx.count("must_after_del")
+                    if any(l.via_none for l in levels):
+                        ctx.count("must_after_none")
                     if d.copied:
                         ctx.count("must_after_" + d.copied)
                     if d.style == "star" and self.inherit[d.level]:
@@ -606,7 +660,7 @@ class History:
                     out[d.serial] = ("unjudged", "listenable=False")
             else:
                 reach = d
-                while reach.is_def and reach is not cell:
+                while reach is not None and reach.is_def and reach is not cell:
                     reach = reach.ref
                 if reach is cell:
                     why = "link-broken"
@@ -637,24 +691,36 @@ class History:
         if r < 0.30 or (r < 0.40 and not mids):
             node = self.front
             if not self.front_write_ok:
-                node = self.front.ref           # same budget, one level down
+                node = self.front.ref or rng.choice(mids)    # same budget, one level down
             return ("assign", node.label, self.draw_raw(node))
         if r < 0.40:
             node = rng.choice(mids)
             return ("assign", node.label, self.draw_raw(node))
         if r < 0.68:
-            t = m_terminal(self.front) if rng.random() < 0.65 else rng.choice(self.terms)
+            t = (m_terminal(self.front) if rng.random() < 0.65 else None) or rng.choice(self.terms)
             return ("assign_t", t.label, rng.choice(TT_VALID[t.tt]))
         if r < 0.82:
             node = self.front if rng.random() < 0.55 else rng.choice(self.defs)
-            return ("swap", node.label, rng.randrange(2))
+            cleared = [d for d in self.defs if d.ref is None]
+            if cleared and rng.random() < 0.6:
+                node = rng.choice(cleared)      # point a cleared reference at a candidate again
+            elif rng.random() < 0.25:
+                return ("swap", node.label, None)      # clear the reference
+            idx = rng.randrange(2)
+            if node is self.front and not self.hook_delegateless_ok:
+                if delegateless(node.cands[idx]):
+                    idx = 1 - idx
+                if delegateless(node.cands[idx]):
+                    return ("read",)
+            return ("swap", node.label, idx)
         if r < 0.93:
-            ps = [d for d in self.defs if d.kind == "P" and (d.listen or self.del_unlistenable_ok)]
+            ps = [d for d in self.defs if d.kind == "P" and (d.listen or self.del_unlistenable_ok)
+                  and m_terminal(d) is not None]
             if ps:
                 with_local = [d for d in ps if d.local is not ABSENT]
                 node = rng.choice(with_local) if with_local and rng.random() < 0.8 else rng.choice(ps)
                 return ("del", node.label)
-        if rng.random() < 0.75:
+        if rng.random() < 0.75 and (self.hook_delegateless_ok or not delegateless(self.front.ref)):
             # the whole structure goes through a copy; the history continues on the copy
             return ("roundtrip", rng.choice(ROUNDTRIPS))
         return ("read",)
@@ -662,8 +728,9 @@ class History:
     def draw_raw(self, node):
         rng = self.rng
         r = rng.random()
+        t = m_terminal(node) or rng.choice(self.terms)
         if r < 0.72:
-            return rng.choice(TT_VALID[m_terminal(node).tt])
+            return rng.choice(TT_VALID[t.tt])
         if r < 0.80:
             return rng.choice(TT_VALID[self.tts[rng.randrange(2)]])
         return rng.choice(HOSTILE)
@@ -686,7 +753,26 @@ class History:
         front_local = self.front.local is not ABSENT
         outcome = "ok"
         new = None
-        if name == "assign":
+        if name == "assign" and m_terminal(self.node(op[1])) is None:
+            # a delegate reference on the way is None: outside the statement, except
+            # that a failure must be one of the documented error classes and that
+            # nothing may change on any object or reach a handler
+            node, raw = self.node(op[1]), op[2]
+            try:
+                setattr(node.obj, node.attr, raw)
+            except NO_DELEGATE_ERRORS:
+                pass
+            except Exception as e:  # noqa: BLE001
+                self.fail("assign/%s/no-delegate" % type(e).__name__,
+                          "%s.%s = %r while a delegate reference is None raised %r"
+                          % (node.label, node.attr, raw, e))
+            self.check_exc_channel(name)
+            self.check_state("assign", node, "no-delegate-changed-state", "no-delegate-changed-state")
+            self.check_notifications({d.serial: ("none", "no-delegate-assignment") for d in self.defs},
+                                     None, "%s.%s = %r without delegate" % (node.label, node.attr, raw))
+            ctx.count("no_delegate_assign_checked")
+            outcome = "no-delegate"
+        elif name == "assign":
             node, raw = self.node(op[1]), op[2]
             st = self.structure(node)
             # interpreter first (on a rejected value it changes nothing)
@@ -752,21 +838,33 @@ class History:
         elif name == "swap":
             node = self.node(op[1])
             verdicts = self.structural_verdicts(node)
-            before = m_read(node)
-            repointed = node.ref is not node.cands[op[2]]
-            node.ref = node.cands[op[2]]
-            node.swapped = node.swapped or repointed
+            UNDEF = object()
+            before = m_read(node) if m_end(node)[1] is not None else UNDEF
+            target = node.cands[op[2]] if op[2] is not None else None
+            repointed = node.ref is not target
+            if node.ref is None and target is not None:
+                node.via_none = True
+                ctx.count("swap_from_none")
+            if target is None and node.ref is not None:
+                ctx.count("swap_to_none")
+            node.ref = target
+            node.swapped = node.swapped or (repointed and target is not None)
+            tl = target.label if target is not None else None
             try:
-                node.obj.p = node.ref.obj
+                node.obj.p = target.obj if target is not None else None
             except Exception as e:  # noqa: BLE001
                 self.fail("swap/%s/%s" % (type(e).__name__, kinds_from(self.front)),
-                          "%s.p = %s raised %r" % (node.label, node.ref.label, e))
+                          "%s.p = %s raised %r" % (node.label, tl, e))
+            if node is self.front and delegateless(target):
+                self.check_hook_channel("%s.p = %s" % (node.label, tl))
             self.check_exc_channel(name)
             self.check_state("swap", self.front, "stored-wrong", "read-wrong")
-            self.check_notifications(verdicts, None, "%s.p = %s" % (node.label, node.ref.label))
+            self.check_notifications(verdicts, None, "%s.p = %s" % (node.label, tl))
             ctx.count("swap_checked")
-            outcome = ("same-object" if not repointed else
-                       "value-changed" if not same_value(before, m_read(node)) else "value-same")
+            after = m_read(node) if m_end(node)[1] is not None else UNDEF
+            outcome = ("same-object" if not repointed else "cleared" if target is None else
+                       "from-none" if before is UNDEF else
+                       "value-changed" if not same_value(before, after) else "value-same")
         elif name == "del":
             node = self.node(op[1])
             verdicts = self.structural_verdicts(node)
@@ -823,10 +921,13 @@ class History:
             for dn in self.decoys:
                 self.decoy_vals[(t.serial, dn)] = getattr(t.obj, dn)
         for d in self.defs:
-            tgt = by_id.get(id(d.obj.p))
-            if tgt is None or tgt not in d.cands:
-                ctx.count("roundtrip_unadoptable")
-                raise EndQuietly()
+            if d.obj.p is None:
+                tgt = None
+            else:
+                tgt = by_id.get(id(d.obj.p))
+                if tgt is None or tgt not in d.cands:
+                    ctx.count("roundtrip_unadoptable")
+                    raise EndQuietly()
             d.ref = tgt
             dct = d.obj.__dict__
             local = dct[d.attr] if d.attr in dct else ABSENT
@@ -837,9 +938,11 @@ class History:
             elif local is not ABSENT:
                 ctx.count("roundtrip_local_value_kept")
             d.local = local
-            d.copied, d.swapped, d.deleted = family, False, False
+            d.copied, d.swapped, d.deleted, d.via_none = family, False, False, False
         self.attach_recorders()
         del self.log[:]
+        if delegateless(self.front.ref):
+            self.check_hook_channel("round trip (%s)" % how)
         del EXC[:]
         # what remains to be judged here: every deferring attribute of the copy
         # reads what the interpreter reads from the copy's cells
@@ -847,6 +950,18 @@ class History:
         ctx.count("roundtrip_checked")
         ctx.count("roundtrip_" + family)
         return family + ("-link-changed" if changed_link else "")
+
+    def check_hook_channel(self, what):
+        """The op just made the front object listen to a middle object that has no
+        delegate of its own; a failure inside the listener machinery here means the
+        front attribute will miss the middle's later changes."""
+        self.ctx.count("hook_delegateless_checked")
+        if EXC:
+            kind, e = EXC[0]
+            self.fail("hook-delegateless-middle/handler-exception/%s" % type(e).__name__,
+                      "%s hooks %s.%s onto a middle object whose delegate reference is None: "
+                      "%r inside the %s machinery (the listener is not installed)"
+                      % (what, self.front.label, self.front.attr, e, kind))
 
     def check_exc_channel(self, op):
         if EXC:
